@@ -70,31 +70,6 @@ def sites(fn):
     return out
 
 
-class Mut(ast.NodeTransformer):
-    def __init__(self, fn_name_path, kind, index):
-        self.kind, self.index = kind, index
-        self.count = 0
-        self.done = False
-
-    def hit(self):
-        h = self.count == self.index
-        self.count += 1
-        if h:
-            self.done = True
-        return h
-
-    def visit(self, x):
-        k = self.kind
-        if self.done:
-            return x
-        if k == "del_stmt" and isinstance(x, (ast.Expr, ast.Assign, ast.AugAssign)) and not (
-                isinstance(x, ast.Expr) and isinstance(x.value, ast.Constant)):
-            if self.hit():
-                return ast.Pass()
-        x = self.generic_visit(x)
-        return x
-
-
 def mutate(fn, kind, index):
     """Mutate in place (fn is a deep copy inside its module tree); uses the same walk
     order as sites()."""
@@ -239,6 +214,8 @@ def main():
     ap.add_argument("--only", default="")
     ap.add_argument("--max-per-fn", type=int, default=60)
     ap.add_argument("--out", default="/tmp/mutation_survivors.json")
+    ap.add_argument("--from-survivors", default="",
+                    help="re-run only the survivors recorded in this earlier result file")
     ap.add_argument("--skip-c10-only", action="store_true",
                     help="skip functions only the C10 key scan consults")
     args = ap.parse_args()
@@ -263,6 +240,9 @@ def main():
         ss = sites(fi.node)[: args.max_per_fn]
         for kind, index, desc in ss:
             tasks.append((fi.module.relpath, parts, kind, index, desc, PROPS, q))
+    if args.from_survivors:
+        keep = {(r[0], r[1], r[2]) for r in json.load(open(args.from_survivors))["survivors"]}
+        tasks = [t for t in tasks if (t[6], t[2], t[3]) in keep]
     print(f"{len(tasks)} mutants over {len(consulted)} consulted functions", flush=True)
     base = "/dev/shm" if os.path.isdir("/dev/shm") else tempfile.gettempdir()
     results = []
